@@ -63,9 +63,19 @@ Result run(const OpEntry& e) {
   std::ostream os(&buf);
   Ctx c;
   c.vclass = -1;
-  c.reset(name_seed(e.name), -1, -1, &os);
+  // parser ops are cheap and input-sensitive: 32 different byte strings per evaluation, hashes chained
+  const int reps = (e.flags & kParser) ? 32 : 1;
+  std::uint64_t chain = 0;
+  long len = 0;
   try {
-    e.fn(c, e.which);
+    for (int k = 0; k < reps; ++k) {
+      c.reset(name_seed(e.name) + static_cast<std::uint64_t>(k) * 0x9E3779B97F4A7C15ULL, -1, -1, &os);
+      e.fn(c, e.which);
+      chain = chain * 1099511628211ULL + c.h;
+      len += c.result_len;
+    }
+    c.h = chain;
+    c.result_len = len;
   } catch (const std::exception& ex) {
     r.status = 1;
     r.type = typeid(ex).name();
